@@ -329,12 +329,12 @@ for p in ["C09", "C13", "C01", "C05"]:
 
 H_PIPELINE = {"fn": "vh_pipeline_decode", "what": "pipelineDecode consuming one pipelined AppendEntries response (arbitrary term/success, 0-2 entries)", "bounds": "N=2", "covers": ["pipeline.success", "pipeline.rejected", "pipeline.stale-term"]}
 H_ELECT = {"fn": "vh_elect_self", "what": "electSelf with every stable-store write failing or not (a failure models a crash at that point): durable invariant and write order", "bounds": "single voter, 3 writes", "covers": ["elect.self-vote-counted", "elect.self-vote-not-counted", "elect.term-write-failed"]}
-H_AE_FAULTS = {"fn": "vh_ae_faults", "what": "appendEntries with failing GetLog/DeleteRange/StoreLogs: a failed write is never acknowledged; the cached last-log position never contradicts the store", "bounds": "W=2, E<=2", "covers": ["aefault.write-failed", "aefault.end"]}
+H_AE_FAULTS = {"fn": "vh_ae_faults", "what": "appendEntries with failing GetLog/DeleteRange/StoreLogs: a failed write is never acknowledged; the cached last-log position never contradicts the store; the log invariant the convergence obligations start from survives every failure", "bounds": "W=2, E<=2", "covers": ["aefault.write-failed", "aefault.truncated-then-store-failed", "aefault.end"]}
 for p in ["C05", "C01", "C09", "C12"]:
     CHECKS[p]["harnesses"].append(H_PIPELINE)
 for p in ["C06", "C01"]:
     CHECKS[p]["harnesses"].append(H_ELECT)
-for p in ["C03", "C04", "C05"]:
+for p in ["C03", "C04", "C05", "C12"]:
     CHECKS[p]["harnesses"].append(H_AE_FAULTS)
 CHECKS["C02"]["harnesses"].append(H_HEARTBEAT)
 
@@ -366,6 +366,10 @@ for p in ["C11", "C02"]:
     CHECKS[p]["harnesses"].append(H_FSMPOS)
 
 CHECKS["C07"]["harnesses"].append(H_TRANSFER)
+H_GATE_FAULTS = {"fn": "vh_gate_faults", "what": "the membership case of leaderLoop with the gate open and StoreLogs/DeleteRange failing: a configuration entry that was not stored is answered with an error, the leader steps down and keeps the configuration its log holds",
+                 "bounds": "2 servers, one log shape, any request", "covers": ["gatefault.store-failed", "gatefault.end"]}
+for p in ["C07", "C05", "C17"]:
+    CHECKS[p]["harnesses"].append(H_GATE_FAULTS)
 
 H_RUNSNAP = {"fn": "vh_run_snapshots", "what": "runSnapshots serving one user snapshot request with the real FSM goroutine and follower loop; FSM snapshot/persist faults", "bounds": "W=2", "covers": ["usersnapshot.ok", "usersnapshot.failed"]}
 for p in ["C17", "C11"]:
